@@ -11,7 +11,7 @@ EXPLANATION = ('Field-coverage and sibling-agreement rules over the validators: 
                'in a send-time validator (or by flow control); every field an encoder writes behind a 16-bit length prefix is length-checked by '
                'that packet\'s validators (user-property name and value separately); static rules (non-empty lists, unset packet id, topic / '
                'filter validity, identifier ranges) have their guards; every submit path and the service loop are dominated by validation; '
-               'both validator dispatchers route each packet kind to its own validator. Added in round 2: send-time validation is given the very alias resolution the encoder applies (the packet measured is the packet written).')
+               'both validator dispatchers route each packet kind to its own validator. Added in round 2: send-time validation is given the very alias resolution the encoder applies (the packet measured is the packet written). Added after the mutation sweeps: each rejection condition of topic / filter / subscription-identifier validation suffices on its own; every outbound validator rejects under exactly the reviewed conditions (table).')
 ASSUMPTIONS = ['not decided: that a conforming operation is never rejected, and the topic-filter grammar over all strings']
 P = 'src/protocol.rs'
 
